@@ -365,3 +365,59 @@ Qed.
 Lemma ex_item_handed :
   handed_b jprint jparse (mkBHandler [101%N] [TBin]) [raw_of ex_item] = [[BBin [7%N; 8%N]]].
 Proof. vm_compute. reflexivity. Qed.
+
+(** * Dispatch to SEVERAL handlers of one name: one finished packet, one [decode] call per handler
+
+    onPacket: [for _, handler := range getAll(name) { onEvent(handler, header, decode, ...) }] -
+    [decode] is a closure over the reconstructor (header + buffers) and is called once per
+    registered handler, each time with that handler's parameter types.  The theorems above use
+    [Sio.Codec.decode] as a function of (header, buffers, types); that is faithful only if a call
+    leaves the reconstructor as it found it.  Here the reconstructor's buffers are threaded through
+    the calls explicitly:
+    - [dec_keep]: the code as it is ([reconstruct] reads [r.buffers], never writes them);
+    - [dec_release]: a reconstructor that drops the attachments after a successful decode (what
+      socket.io-parser's finishedReconstruction does for its single consumer) - a class of change. *)
+Section MultiDispatch.
+  Variable marshal : jv -> bytes.
+  Variable unmarshal : bytes -> option jv.
+  Variable hdr : header.
+
+  Definition dec_fn := list bytes -> list ty -> res (list jb) * list bytes.
+
+  Definition dec_keep : dec_fn :=
+    fun bufs tys => (Sio.Codec.decode marshal unmarshal hdr bufs tys, bufs).
+  Definition dec_release : dec_fn :=
+    fun bufs tys =>
+      match Sio.Codec.decode marshal unmarshal hdr bufs tys with
+      | Ok v => (Ok v, firstn 1 bufs)
+      | r => (r, bufs)
+      end.
+
+  (** the dispatch loop: handlers in registration order, each with its own types *)
+  Fixpoint dispatch_all (dec : dec_fn) (bufs : list bytes) (hs : list (list ty)) : list (res (list jb)) :=
+    match hs with
+    | [] => []
+    | tys :: hs' => let (r, bufs') := dec bufs tys in r :: dispatch_all dec bufs' hs'
+    end.
+
+  (** the code as it is: every handler - whatever its position, whatever the parameter types of
+      the handlers called before it - gets the decode of the SAME finished packet *)
+  Theorem dispatch_keep_independent : forall bufs hs,
+    dispatch_all dec_keep bufs hs = map (Sio.Codec.decode marshal unmarshal hdr bufs) hs.
+  Proof. intros bufs hs. induction hs as [|tys hs IH]; [reflexivity|]. simpl. now rewrite IH. Qed.
+End MultiDispatch.
+
+(** the releasing variant refuted: Emit("e", Binary{7,8}), two handlers [func(Binary)] - the first
+    gets the two bytes, the second is handed the placeholder text instead (no error) *)
+Lemma dispatch_release_refuted :
+  let r := raw_of ex_item in
+  dispatch_all (dec_keep jprint jparse (fst (fst r))) (snd r) [[TBin]; [TBin]]
+    = [Ok [BBin [7%N; 8%N]]; Ok [BBin [7%N; 8%N]]]
+  /\ exists other,
+       dispatch_all (dec_release jprint jparse (fst (fst r))) (snd r) [[TBin]; [TBin]]
+         = [Ok [BBin [7%N; 8%N]]; other]
+       /\ other <> Ok [BBin [7%N; 8%N]].
+Proof.
+  split; [vm_compute; reflexivity|].
+  eexists. split; [vm_compute; reflexivity|]. vm_compute. discriminate.
+Qed.
